@@ -94,6 +94,7 @@ func (ts *Timers) Add(ctx context.Context, id string, message interface{}, in ti
 	}
 
 	ts.timers[id] = te
+	vhook("timer-added", id, te)
 
 	stop := func() {
 		if err := ts.Rem(ctx, id); err != nil {
@@ -104,25 +105,30 @@ func (ts *Timers) Add(ctx context.Context, id string, message interface{}, in ti
 
 	go func() {
 		timer := time.NewTimer(te.At.Sub(time.Now()))
+		vhook("timer-wait", id, te)
 		select {
 		case <-ctx.Done():
 			stop()
 		case <-te.ctl:
 			// We only get here via a Rem() call.
+			vhook("timer-cancel-seen", id, te)
 		case <-ts.ctl:
 			stop()
 
 			// Not exactly what we want ...
 		case <-timer.C:
+			vhook("timer-due", id, te)
 			Logf("Timers firing %s", JS(ts))
 			if err := ts.emit(ctx, te.Message); err != nil {
 				ts.err(fmt.Errorf("Timers emit error %v id=%s", err, id))
 			}
 
+			vhook("timer-emitted", id, te)
 			// See https://github.com/Comcast/sheens/issues/19
 			ts.Lock()
 			delete(ts.timers, id)
 			ts.Unlock()
+			vhook("timer-cleaned", id, te)
 		}
 	}()
 
@@ -146,6 +152,7 @@ func (ts *Timers) Rem(ctx context.Context, id string) error {
 	delete(ts.timers, id)
 
 	close(te.ctl)
+	vhook("timer-removed", id, te)
 
 	return nil
 }
